@@ -170,11 +170,11 @@ func run(c *vlib.Ctx) {
 	// trigger the known finding hamt-reload-undercount/maxlinks-reached (a HAMT
 	// loaded from its root counts root links, not entries). The first four
 	// strata cannot reach it and stay fully checked.
-	c.Cases("basic", c.N(200, 6000), func(k *vlib.Case) { oneHistory(k, "basic") })
-	c.Cases("hamt", c.N(500, 14000), func(k *vlib.Case) { oneHistory(k, "hamt") })
-	c.Cases("dyn", c.N(300, 8000), func(k *vlib.Case) { oneHistory(k, "dyn") })
-	c.Cases("dyn-ml", c.N(250, 6000), func(k *vlib.Case) { oneHistory(k, "dyn-ml") })
-	c.Cases("dyn-ml-reload", c.N(250, 6000), func(k *vlib.Case) { oneHistory(k, "dyn-ml-reload") })
+	c.Cases("basic", c.N(200, 1500), func(k *vlib.Case) { oneHistory(k, "basic") })
+	c.Cases("hamt", c.N(500, 4500), func(k *vlib.Case) { oneHistory(k, "hamt") })
+	c.Cases("dyn", c.N(300, 2500), func(k *vlib.Case) { oneHistory(k, "dyn") })
+	c.Cases("dyn-ml", c.N(250, 1800), func(k *vlib.Case) { oneHistory(k, "dyn-ml") })
+	c.Cases("dyn-ml-reload", c.N(250, 1800), func(k *vlib.Case) { oneHistory(k, "dyn-ml-reload") })
 }
 
 type ent struct {
